@@ -212,6 +212,43 @@ def split_files(ctx, msgs, stream, scratch, tag, spec):
     so, se, exc, code = run_cli(['info', '-c', path])
     if exc is not None or not so.strip().endswith(': %d' % len(msgs)):
         ctx.violate('info-count-differs', 'info -c printed %r for %d messages (%r)' % (so.strip()[-40:], len(msgs), exc), spec)
+    # several files in one invocation: every file is scanned on its own
+    path2 = path + '.second'
+    msgs2 = list(reversed(msgs))[:max(1, len(msgs) - 1)] if msgs else []
+    with open(path2, 'wb') as f:
+        f.write(b'\r\r\n'.join(m.bytes for m in msgs2))
+    so, se, exc, code = run_cli(['info', '-c', path, path2])
+    ctx.count('multi_file_command_runs')
+    want_lines = ['%s: %d' % (path, len(msgs)), '%s: %d' % (path2, len(msgs2))]
+    if exc is not None or [ln.strip() for ln in so.splitlines() if ln.strip()] != want_lines:
+        ctx.violate('info-count-differs/several-files', 'info -c over two files printed %r, expected %r (%r)'
+                    % (so.strip().splitlines()[-2:], [w.split('/')[-1] for w in want_lines], exc), spec)
+    so, se, exc, code = run_cli(['split', path, path2])
+    ctx.count('multi_file_command_runs')
+    if exc is not None:
+        ctx.violate('split-command-raises:%s/several-files' % type(exc).__name__, 'pybufrkit split of two files raised %r' % (exc,), spec, exc=exc)
+    else:
+        names = [ln.strip() for ln in so.splitlines() if ln.strip()]
+        got = {}
+        for nme in names:
+            with open(nme, 'rb') as f:
+                got.setdefault(nme.rsplit('.', 1)[0], []).append(f.read())
+            os.remove(nme)
+        if got.get(path, []) != [m.bytes for m in msgs] or got.get(path2, []) != [m.bytes for m in msgs2]:
+            ctx.violate('split-command/pieces-differ/several-files', 'split of two files wrote %r pieces, the files hold %d and %d messages'
+                        % ({k.split('/')[-1]: len(v) for k, v in got.items()}, len(msgs), len(msgs2)), spec)
+    so, se, exc, code = run_cli(['decode', '-m', '-j', path, path2])
+    ctx.count('multi_file_command_runs')
+    if exc is None and not se.strip():
+        try:
+            lens = [json.loads(ln)[0][1] for ln in so.splitlines() if ln.strip()]
+        except Exception:
+            lens = None
+        if lens != [len(m.bytes) for m in msgs] + [len(m.bytes) for m in msgs2]:
+            ctx.violate('decode-m-command/messages-differ/several-files', 'decode -m of two files printed messages of lengths %r' % (lens,), spec)
+    else:
+        ctx.violate('decode-m-command-fails/several-files', 'decode -m of two files failed: %r %s' % (exc, se[:100]), spec)
+    os.remove(path2)
     # decode -m [--filter]: one JSON document per delivered message, in order (identified by its section lengths/metadata)
     metas = [known_meta(m) for m in msgs]
     fi = ctx.rng.randrange(len(FILTERS))
